@@ -83,12 +83,13 @@ def prove_line(ctx):
 # ------------------------------------------------------------------------------------ SCCReader.read, up to the line loop
 
 def read_head(c):
-    """SCCReader.read before the checks of its tail (those are the region contract of C06 / C15): the parser state is reset
-    first, the options are taken over - the offset in microseconds, whatever its sign or fraction - and every line after the
-    header line is handed to `_translate_line` exactly once, in order, whatever the line terminator; the implicit
-    buffers are flushed after the last line.  The stash is empty here (the callees are recording stubs), so the call ends
-    in the no-captions error."""
-    from fractions import Fraction
+    """SCCReader.read before the checks of its tail (those are the region contract of C06 / C15), on a reader that has
+    read another document before (stale stash, doubling state, options, time translator).  Observed at the moment the
+    FIRST line is handed to `_translate_line` - wherever read() or its helpers do the work: nothing of the earlier read
+    is left (new stash, new buffers, doubling state cleared), the options of THIS call are in force - the offset in
+    microseconds, whatever its sign or fraction.  Every line after the header line is handed on exactly once, in order,
+    whatever the line terminator; the implicit buffers are flushed after the last line.  (`_translate_line` and
+    `_flush_implicit_buffers` are recording stubs, so the stash stays empty and the call ends in the no-captions error.)"""
     from pyvc.verify import Raised
     from pycaption.exceptions import CaptionReadNoCaptions
     eol = c.pick("line_terminator", ["\n", "\r\n", "\r"])
@@ -98,34 +99,38 @@ def read_head(c):
               "fraction": c.ratio(c.int("offset_ms", -10 ** 8, 10 ** 8), 1000)}[kind] if c.symbolic else {"zero": 0, "int": 3, "negative int": -2, "fraction": 0.5}[kind]
     roll = c.pick("simulate_roll_up", [False, True])
     content = eol.join(["Scenarist_SCC V1.0", ""] + body)
-    tt = c.new(_SccTimeTranslator, _time="00:00:00;00", _frames=0, offset=12345)
-
-    class _Stash:
-        _collection = []
-
-        def get_all(self):
-            return []
-
-    class _Buffers:
-        active_key = "pop"
-    rd = c.new(SCCReader, time_translator=tt, caption_stash=_Stash(), buffer_dict=_Buffers(), simulate_roll_up="stale")
+    stale_tt = c.new(_SccTimeTranslator, _time="09:09:09;09", _frames=99, offset=12345)
+    rd = c.new(SCCReader, time_translator=stale_tt, caption_stash="stale stash", buffer_dict="stale buffers", pop_ons_queue="stale queue",
+               last_command="9137", double_starter=True, simulate_roll_up="stale", roll_rows=["stale"], roll_rows_expected=3, time=777)
     log = []
+    G = c.interp.getattr
+
+    def h_line(interp, fn, a, kw):
+        tt = G(rd, "time_translator")
+        log.append(("line", a[1], G(tt, "offset"), G(rd, "simulate_roll_up"), tt is stale_tt, G(rd, "caption_stash"), G(rd, "buffer_dict"),
+                    G(rd, "last_command"), G(rd, "double_starter"), G(rd, "pop_ons_queue"), G(rd, "roll_rows"), G(rd, "time")))
     q = "pycaption.scc:SCCReader."
-    c.interp.contracts.update({q + "_reset_state": lambda interp, fn, a, kw: log.append(("reset",)),
-                               q + "_translate_line": lambda interp, fn, a, kw: log.append(("line", a[1], interp.getattr(tt, "offset"), interp.getattr(rd, "simulate_roll_up"))),
-                               q + "_flush_implicit_buffers": lambda interp, fn, a, kw: log.append(("flush",) + tuple(a[1:]))})
+    c.interp.contracts.update({q + "_translate_line": h_line,
+                               q + "_flush_implicit_buffers": lambda interp, fn, a, kw: log.append(("flush",) + tuple(a[1:2]))})
     r = c.call(SCCReader.read, rd, content, "xx", roll, offset, raises=(CaptionReadNoCaptions,), compare=False)
     c.ensure("an_empty_stash_is_the_no_captions_error", isinstance(r, Raised))
-    c.ensure("state_reset_before_anything_else", log[:1] == [("reset",)] and log.count(("reset",)) == 1)
     lines = [e_ for e_ in log if e_[0] == "line"]
     c.ensure("every_line_after_the_header_once_in_order", [e_[1] for e_ in lines] == ([""] + body if body else []))      # (a terminator after the last line starts no further line)
-    c.ensure("buffers_flushed_after_the_last_line", log[-1:] == [("flush", "pop")] and sum(1 for e_ in log if e_[0] == "flush") == 1)
-    c.ensure("roll_up_option_taken_over_before_the_first_line", c.interp.getattr(rd, "simulate_roll_up") is roll and all(e_[3] is roll for e_ in lines))
-    off = c.interp.getattr(tt, "offset")
+    last_line = max([i for i, e_ in enumerate(log) if e_[0] == "line"] + [-1])
+    first_line = min([i for i, e_ in enumerate(log) if e_[0] == "line"] + [len(log)])
+    # (setting up the buffers announces the active one to the observer once: that is before the first line)
+    c.ensure("buffers_flushed_once_after_the_last_line", log[-1:] == [("flush", "pop")] and all(e_[0] == "line" for e_ in log[first_line:last_line + 1])
+             and (not lines or [e_[0] for e_ in log[last_line + 1:]] == ["flush"]))
     want = offset * 1000000
+    now_tt = G(rd, "time_translator")
+    c.ensure("nothing_of_the_earlier_read_is_left_when_the_first_line_is_translated",
+             now_tt is not stale_tt and all(e_[4] is False and e_[5] != "stale stash" and e_[6] != "stale buffers" and e_[7] == "" and e_[8] is False
+                                            and e_[9] != "stale queue" and len(e_[9]) == 0 and e_[10] == [] and e_[11] == 0 for e_ in lines))
+    c.ensure("roll_up_option_of_this_call_in_force", G(rd, "simulate_roll_up") is roll and all(e_[3] is roll for e_ in lines))
+    off = G(now_tt, "offset")
     c.ensure("offset_in_microseconds_whatever_its_sign_or_fraction", c.exact(off) == c.exact(want) if c.symbolic else off == want)
-    c.ensure("offset_set_before_the_first_line", all(e_[2] is off for e_ in lines))
+    c.ensure("offset_in_force_from_the_first_line_on", all(e_[2] is off for e_ in lines))
 
 
 def prove_read_head(ctx):
-    ctx.prove("scc.SCCReader.read[head]", read_head, functions=[SCCReader.read], crosscheck=False)
+    ctx.prove("scc.SCCReader.read[head]", read_head, functions=[SCCReader.read, SCCReader._reset_state], crosscheck=False)
